@@ -17,7 +17,7 @@ COQ_FILES = ["Model/Conn.v", "Proofs/ConnProofs.v", "Props/C09.v"]
 def bring_to(c, state):
     """append the remote messages that bring the connection to the given state"""
     if state in ("openConfirm", "established"):
-        c.send(S.frame(S.OPEN, S.open_body(c.remote_as)))
+        c.send(S.frame(S.OPEN, S.open_body(c.remote_as, hold=getattr(c, "remote_hold", 90))))
     if state == "established":
         c.send(S.frame(S.KEEPALIVE))
 
@@ -39,10 +39,18 @@ def convs(rng, tier):
                         ("notif.short", S.frame(S.NOTIF, bytes([rng.randint(0, 255)]))),
                         ("type0", S.frame(0)), ("type5", S.frame(5, gen.rbytes(rng, 4))), ("type255", S.frame(255))]
                 for name, m in msgs:
-                    c = S.Conv(sid, direction=direction, tag="%s.%s.%s" % (state, name, direction))
+                    # the negotiated hold time is a mode of every cell: (local, remote) incl. 0 on either side
+                    hl, hr = rng.choice([(90, 90), (90, 90), (90, 0), (0, 90), (0, 0), (3, 90)])
+                    c = S.Conv(sid, direction=direction, hold=hl,
+                               tag="%s.%s%s.%s" % (state, name, ".hold0" if min(hl, hr) == 0 else "", direction))
+                    c.remote_hold = hr
                     c.meta = {"state": state, "what": name, "type": m[18]}
                     c.judge = judge
                     bring_to(c, state)
+                    if state == "established" and rng.random() < 0.5:
+                        c.send(S.frame(S.KEEPALIVE))      # legal progress first, then the message under test
+                        if rng.random() < 0.5:
+                            c.send(S.frame(S.UPDATE, b"\x00\x00\x00\x00"))
                     c.send(m)
                     if state == "established" and name in ("keepalive", "update", "update.big", "update.max"):
                         c.eof = 1
@@ -56,6 +64,18 @@ def convs(rng, tier):
                     c.eof = eof
                     out.append(c)
                     sid += 1
+                # the connection ends in the middle of a message (header complete, body partly or not at all received)
+                for full in (S.frame(S.UPDATE, b"\x00\x00\x00\x00" + gen.rbytes(rng, 40)), S.frame(S.OPEN, S.open_body()),
+                             S.frame(S.NOTIF, S.notif_body(6, 2, b"bye"))):
+                    for cut in (19, 19 + (len(full) - 19) // 2):
+                        c = S.Conv(sid, direction=direction, tag="%s.fin-mid-message.%s" % (state, direction))
+                        c.meta = {"state": state, "what": "fin", "type": 0}
+                        c.judge = judge
+                        bring_to(c, state)
+                        c.send(full[:cut])
+                        c.eof = 1
+                        out.append(c)
+                        sid += 1
     return out
 
 
